@@ -185,6 +185,8 @@ class DiskGen(Gen):
               'short_max': rng.choice([1, 3, 17, 1 << 20]), 'fixed_point': rng.random() < 0.5}
         rs = {'op': 'restart', 'load': rng.choice(['filename_input', 'file_input', 'input', 'load_metamodel']),
               'order_seed': rng.getrandbits(30)}
+        if rng.random() < 0.25:
+            rs['torn'] = rng.random()
         return [ck, rs]
 
     def run(self):
@@ -385,7 +387,7 @@ class DiskExec(Exec):
         acked = self.acked
         files = list(acked['files'])
         random.Random(op['order_seed']).shuffle(files)
-        m2 = self.load(files, op['load'])
+        m2 = self.load(files, op['load'], op.get('torn'))
         self.bump(self.probes, 'restart_' + op['load'])
         self.adopt(m2)
         self.normalise_reference()
@@ -420,12 +422,22 @@ class DiskExec(Exec):
             self.bump(self.probes, 'fixed_point_checked')
         self.acked = None
 
-    def load(self, files, how):
+    def load(self, files, how, torn=None):
         x = self.x
         if how == 'load_metamodel':
             seams.install_entropy()
             return x.load_metamodel(files if len(files) > 1 else files[0])
         loader = x.ModelLoader()
+        if torn is not None and files:
+            # the restarted process first meets a torn copy of one of its files (an earlier, interrupted write): if the
+            # loader rejects it, the same loader goes on to read the intact files
+            text = self.disk.get(files[0]).decode('utf-8')
+            cut = text[:int(len(text) * torn)]
+            try:
+                loader.input(cut, name='torn copy')
+                loader = x.ModelLoader()        # a prefix that happens to be complete: start over
+            except x.ParsingException:
+                self.bump(self.probes, 'restart_after_rejected_torn_copy')
         for path in files:
             if how == 'filename_input':
                 loader.filename_input(path)
